@@ -110,8 +110,7 @@ theorem iterRemove_refines (it : Iter) (a : ArraySized) (c : Spec.SSeq.Cursor El
       refine ⟨rfl, rfl, ⟨?_, rfl, rfl⟩, s4, rfl, s6, s7, fun hh => absurd rfl hh⟩
       rw [s5, habs, eraseIdx_mid]; rfl
 
-theorem iterAdd_refines (it : Iter) (a : ArraySized) (c : Spec.SSeq.Cursor Elem) (e : Buf Nat) (m : Mem) (h : a.Inv)
-    (hg : a.GrowOk) (he : e.length = a.dataLen) (hrel : IterRel it a c) :
+theorem iterAdd_refines (it : Iter) (a : ArraySized) (c : Spec.SSeq.Cursor Elem) (e : Buf Nat) (m : Mem) (h : a.Inv) (he : e.length = a.dataLen) (hrel : IterRel it a c) :
     ((a.iterAdd it e m).1 = .ok ∧ IterRel (a.iterAdd it e m).2.1 (a.iterAdd it e m).2.2.1 (c.add e) ∧
       (a.iterAdd it e m).2.2.1.Inv ∧ (a.iterAdd it e m).2.2.1.dataLen = a.dataLen ∧
       (a.iterAdd it e m).2.2.1.grow = a.grow ∧ MemSame m (a.iterAdd it e m).2.2.2) ∨
@@ -119,7 +118,7 @@ theorem iterAdd_refines (it : Iter) (a : ArraySized) (c : Spec.SSeq.Cursor Elem)
       (a.iterAdd it e m).2.1 = it ∧ (a.iterAdd it e m).2.2.1 = a ∧ MemSame m (a.iterAdd it e m).2.2.2) := by
   have hsz := rel_size hrel
   obtain ⟨h1, h2, h3⟩ := hrel
-  rcases addAt_spec a e it.index m h hg he (by omega) with ⟨s1, s2, s3, s4, s5, s6, s7⟩ | ⟨s1, s2, s3, _⟩
+  rcases addAt_spec a e it.index m h he (by omega) with ⟨s1, s2, s3, s4, s5, s6, s7⟩ | ⟨s1, s2, s3, _⟩
   · left
     have e1 : a.iterAdd it e m = (.ok, { it with index := it.index + 1 }, (a.addAt e it.index m).2.1, (a.addAt e it.index m).2.2) := by
       unfold iterAdd; rw [if_pos s1, s1]
@@ -398,11 +397,11 @@ theorem zipIndex_refines (it : Iter) (a1 a2 : ArraySized) (c : Spec.SSeq.ZipCurs
   rw [hrel.2.2.1, sizeMax_eq]
 
 /-- with a free slot `add_at` cannot be refused -/
-theorem addAt_room (a : ArraySized) (e : Buf Nat) (index : Nat) (m : Mem) (h : a.Inv) (hg : a.GrowOk)
+theorem addAt_room (a : ArraySized) (e : Buf Nat) (index : Nat) (m : Mem) (h : a.Inv)
     (he : e.length = a.dataLen) (hi : index ≤ a.size) (hroom : a.size < a.capacity) :
     (a.addAt e index m).1 = .ok ∧ (a.addAt e index m).2.1.Inv ∧
     (a.addAt e index m).2.1.abs = a.abs.insertIdx index e ∧ MemSame m (a.addAt e index m).2.2 := by
-  rcases addAt_spec a e index m h hg he hi with ⟨s1, s2, s3, _, _, _, s7⟩ | ⟨_, _, _, s4, _⟩
+  rcases addAt_spec a e index m h he hi with ⟨s1, s2, s3, _, _, _, s7⟩ | ⟨_, _, _, s4, _⟩
   · exact ⟨s1, s2, s3, s7⟩
   · omega
 
@@ -418,7 +417,7 @@ theorem zipRoom_eq (a : ArraySized) (m : Mem) (h : a.Inv) :
 the cursor steps over them, or a growth was refused: then the status is `CC_ERR_ALLOC`, both
 contents are unchanged, the ledger is balanced and the cursor has not moved (repair A8) -/
 theorem zipAdd_spec (it : Iter) (a1 a2 : ArraySized) (c : Spec.SSeq.ZipCursor Elem) (e1 e2 : Buf Nat) (m : Mem)
-    (i1 : a1.Inv) (i2 : a2.Inv) (g1 : a1.GrowOk) (g2 : a2.GrowOk)
+    (i1 : a1.Inv) (i2 : a2.Inv)
     (he1 : e1.length = a1.dataLen) (he2 : e2.length = a2.dataLen) (hrel : ZipRel it a1 a2 c) :
     ((zipAdd it a1 a2 e1 e2 m).1 = .ok ∧
       ZipRel (zipAdd it a1 a2 e1 e2 m).2.1 (zipAdd it a1 a2 e1 e2 m).2.2.1 (zipAdd it a1 a2 e1 e2 m).2.2.2.1 (c.add e1 e2) ∧
@@ -435,14 +434,14 @@ theorem zipAdd_spec (it : Iter) (a1 a2 : ArraySized) (c : Spec.SSeq.ZipCursor El
   unfold zipAdd
   dsimp only
   rw [zipRoom_eq a1 m i1]
-  rcases ensureRoom_spec a1 m i1 g1 with ⟨p1, p2, p3, p4, p5, p6, p7, p8, p9⟩ | ⟨p1, p2, p3, _⟩
+  rcases ensureRoom_spec a1 m i1 with ⟨p1, p2, p3, p4, p5, p6, p7, p8, p9⟩ | ⟨p1, p2, p3, _⟩
   · generalize a1.ensureRoom m = r1 at *
     obtain ⟨st1, b1, m1⟩ := r1
     dsimp only at *
     subst p1
     simp only [ne_eq, not_true_eq_false, if_false]
     rw [zipRoom_eq a2 m1 i2]
-    rcases ensureRoom_spec a2 m1 i2 g2 with ⟨q1, q2, q3, q4, q5, q6, q7, q8, q9⟩ | ⟨q1, q2, q3, _⟩
+    rcases ensureRoom_spec a2 m1 i2 with ⟨q1, q2, q3, q4, q5, q6, q7, q8, q9⟩ | ⟨q1, q2, q3, _⟩
     · generalize a2.ensureRoom m1 = r2 at *
       obtain ⟨st2, b2, m2⟩ := r2
       dsimp only at *
@@ -451,8 +450,8 @@ theorem zipAdd_spec (it : Iter) (a1 a2 : ArraySized) (c : Spec.SSeq.ZipCursor El
       left
       have hi1 : it.index ≤ b1.size := by rw [p4]; omega
       have hi2 : it.index ≤ b2.size := by rw [q4]; omega
-      obtain ⟨u1, u2, u3, u4⟩ := addAt_room b1 e1 it.index m2 p2 (growOk_of_eq g1 p6) (by rw [p5]; exact he1) hi1 (by rw [p4]; exact p8)
-      obtain ⟨v1, v2, v3, v4⟩ := addAt_room b2 e2 it.index (b1.addAt e1 it.index m2).2.2 q2 (growOk_of_eq g2 q6)
+      obtain ⟨u1, u2, u3, u4⟩ := addAt_room b1 e1 it.index m2 p2 (by rw [p5]; exact he1) hi1 (by rw [p4]; exact p8)
+      obtain ⟨v1, v2, v3, v4⟩ := addAt_room b2 e2 it.index (b1.addAt e1 it.index m2).2.2 q2
         (by rw [q5]; exact he2) hi2 (by rw [q4]; exact q8)
       refine ⟨trivial, ⟨?_, ?_, ?_, ?_, h5⟩, u2, v2, MemSame.trans p9 (MemSame.trans q9 (MemSame.trans u4 v4))⟩
       · rw [u3, p3, h1, Spec.SSeq.ZipCursor.content1, h3, insertIdx_mid]
